@@ -93,7 +93,7 @@ PROPS.update({
 PROPS.update({
     "C15": dict(module="Ebu.Props.C15", ready=True,
         parts=[dict(name="names15", domain="names", domain_module="names", gen=names.gen, n_quick=1, n_thorough=1)],
-        rule="exhaustive: the 17 instantiated shapes (incl. a typed nil pointer event, and two shapes on the SQLite store, one with a custom name that looks like a number) (value/pointer x no namer / value-receiver namer / pointer-receiver namer, state.ChangeMessage and state.ControlMessage by value and pointer, and namers that compute the name from the event's fields) x 6 routes (EventType, persisted name, SubscribeWithReplay, RegisterUpcast source, RegisterUpcast target, the persisted name and typed match after a ReplayWithUpcast went over the record), each shape alone and in 3 random orders; non-trivial = a typed replay subscription matched a persisted event; distinct = distinct implementation traces",
+        rule="exhaustive: the 20 instantiated shapes (incl. a typed nil pointer event, two shapes on the SQLite store, one with a custom name that looks like a number, and named integer / slice / map event types with a custom name) (value/pointer x no namer / value-receiver namer / pointer-receiver namer, state.ChangeMessage and state.ControlMessage by value and pointer, and namers that compute the name from the event's fields) x 6 routes (EventType, persisted name, SubscribeWithReplay, RegisterUpcast source, RegisterUpcast target, the persisted name and typed match after a ReplayWithUpcast went over the record), each shape alone and in 3 random orders; non-trivial = a typed replay subscription matched a persisted event; distinct = distinct implementation traces",
         trusted_base=["reflect.Type.Implements and dynamic type assertion follow Go's method-set rule (the model encodes the language rule; the harness validates it against the compiler on every shape)"],
         assumptions=COMMON_ASSUME + ["events are published as non-nil values; for the typed routes (SubscribeWithReplay, RegisterUpcast) EventTypeName does not depend on the value – they have no value to ask and use the zero value's name (theorem names_agree_needs_constName shows the hypothesis is needed); the persisted name equals EventType for every shape, value-dependent ones included"],
         extra_coverage=lambda: {"exhaustive": True},
